@@ -178,6 +178,50 @@ fn sweep(name: &str, g: Grammar, min_len: usize, max_len: usize) -> Sweep {
     )
 }
 
+// Programs whose variable uses refer to their own binders (all namings over a two-name pool): the
+// printer's decisions that depend on where a variable occurs (dependent vs non-dependent function
+// type) are only exercised by these.
+fn named_sweep(name: &str, g: Grammar, min_len: usize, max_len: usize) -> Sweep {
+    let sentences = Rc::new(RefCell::new(Sentences::new(g.clone(), min_len, max_len)));
+    let total = sentences.borrow().total;
+    let s2 = sentences.clone();
+    let pool = ["a", "b"];
+    Sweep::new(
+        name,
+        total,
+        move |idx| {
+            let tree = sentences.borrow_mut().tree(idx);
+            let mut toks: Vec<tok::Tok> = tree.tokens().into_iter().map(tok::Tok::new).collect();
+            let ids: Vec<usize> = toks.iter().enumerate().filter(|(_, t)| t.k == K::Identifier).map(|(i, _)| i).collect();
+            if ids.len() > 10 {
+                return;
+            }
+            for a in 0..(1usize << ids.len()) {
+                for (bit, i) in ids.iter().enumerate() {
+                    toks[*i] = tok::Tok::ident(pool[(a >> bit) & 1]);
+                }
+                let (src, ranges) = tok::layout(&toks);
+                let real = tok::real_tokens(&src, &toks, &ranges);
+                count!("evaluations");
+                bind::with_tokens(&src, &real, &[], 2, |f| {
+                    if let Front::TypeErr { term, .. } | Front::Ok { term, .. } = f {
+                        count!("named_programs_parsed");
+                        if round_trip(&src, term, &[]) {
+                            count!("round_trips");
+                            count!("named_round_trips");
+                            count!("nontrivial");
+                        }
+                    }
+                });
+            }
+        },
+        move |idx| {
+            let tree = s2.borrow_mut().tree(idx);
+            format!("all namings over {{a, b}} of: {}", tok::layout(&tree.tokens().into_iter().map(tok::Tok::new).collect::<Vec<_>>()).0)
+        },
+    )
+}
+
 impl Prop for C16 {
     fn id(&self) -> &'static str {
         "C16"
@@ -188,6 +232,20 @@ impl Prop for C16 {
             sweep("parse results of sentences, full alphabet", g.clone(), 1, tier.pick(5, 6)),
             sweep("parse results of sentences, class alphabet", g.restrict(&c07::class_alphabet(), &[]), 6, tier.pick(7, 9)),
         ];
+        // named programs: class alphabet, binder forms, and function types over definition groups
+        v.push(named_sweep("named programs, class alphabet", g.restrict(&c07::class_alphabet(), &[]), 1, tier.pick(6, 7)));
+        v.push(named_sweep(
+            "named programs, binder forms",
+            g.restrict(&[K::Identifier, K::Type, K::LeftParen, K::RightParen, K::LeftCurly, K::RightCurly, K::Colon, K::ThickArrow, K::ThinArrow], &["let", "application"]),
+            7,
+            tier.pick(11, 13),
+        ));
+        v.push(named_sweep(
+            "named programs, function types over definition groups",
+            g.restrict(&[K::Identifier, K::Type, K::LeftParen, K::RightParen, K::Colon, K::Equals, K::Semicolon, K::ThinArrow], &["application", "lambda", "annotated_lambda"]),
+            7,
+            tier.pick(13, 15),
+        ));
         for (name, sg) in c07::slices(&g) {
             if name == "let-in-binder-domain" {
                 // small slice, pushed further: a let as a binder's domain needs 13 tokens
@@ -201,7 +259,7 @@ impl Prop for C16 {
     fn evidence(&self, tier: Tier) -> EvidenceSpec {
         EvidenceSpec {
             level: "exploration",
-            rule: "every sentence of grammar.y up to the bounds (full alphabet, class alphabet, seven sub-grammar slices incl. all binder forms and let groups in annotation / domain positions) is parsed by the real parser; the resulting term is printed with its Display implementation, the text is tokenized and parsed again in the same scope, and the two terms must be equal up to names of unused function-type parameters and identity/shift of unresolved holes. non-trivial = sentences of at least 3 tokens that round-tripped".to_owned(),
+            rule: "every sentence of grammar.y up to the bounds (full alphabet, class alphabet, seven sub-grammar slices incl. all binder forms and let groups in annotation / domain positions) is parsed by the real parser — with simply named identifiers, and (class alphabet, binder forms, function types over definition groups) with every naming over a two-name pool so that variable uses refer to their own binders —; the resulting term is printed with its Display implementation, the text is tokenized and parsed again in the same scope, and the two terms must be equal up to names of unused function-type parameters and identity/shift of unresolved holes. non-trivial = sentences of at least 3 tokens that round-tripped".to_owned(),
             assumptions: vec!["only parser-produced terms are judged (printing of elaborated terms, where solved holes may repeat binder names, is outside the property)".to_owned()],
             evaluations: "evaluations",
             nontrivial: "nontrivial",
@@ -210,7 +268,7 @@ impl Prop for C16 {
             traces: None,
             exhaustive: true,
             bounds: json!({"full_alphabet_max_tokens": tier.pick(5, 6), "class_alphabet_max_tokens": tier.pick(7, 9), "slices_max_tokens": tier.pick(11, 13)}),
-            minimums: vec![("round_trips", 100_000), ("with_implicit_binder", 1_000)],
+            minimums: vec![("round_trips", 100_000), ("with_implicit_binder", 1_000), ("named_round_trips", 10_000)],
         }
     }
 }
